@@ -48,3 +48,13 @@ add("C12", "H", "explicit-state BFS over API histories of the real Traph (bounde
 add("C15", "H", TWIN,
     "Every history up to the stated depth (multi-block stems, constructor rules, overwrite flag on/off) runs on an in-memory and on a fresh on-disk index; per request the reports/exceptions, per state the bytes of both stores and the observation vector must be identical, and the blocks read through FileStorage.map() right after the request must equal the store's blocks.",
     "DESIGN.md 6/C15")
+
+add("C09", "H+P+E", "explicit-state BFS over API histories (engine H) x exhaustive enumeration of pagination chains, incl. every placement of <=2 (thorough 3) interleaved insertions replayed from scratch (engine P); exhaustive token text round trip",
+    "On every state of a bounded BFS, for every webentity, prefix order, page size and crawled-only setting the token chain is followed to the end and compared with the unpaginated page set, the prescribed order, the exact answer sizes and counts. On three base states every chain with up to 2 (3) page insertions placed at any token boundaries is executed on a fresh index: nothing may repeat, nothing that stayed in the webentity throughout may be skipped. Tokens round-trip for every (index<=5, path in {1,2,3}^<=8).",
+    "DESIGN.md 6/C09")
+add("C10", "H", "explicit-state BFS over API histories of the real Traph (bounded depth, exhaustive) x exhaustive enumeration of pagination chains on every state",
+    "On every state of a bounded BFS over link batches and prefix layouts (link-less pages between link-bearing ones, prefixes without link-bearing page, sources whose links all fail the switches), for every webentity, up to 6 prefix orders, source-page counts 1..3(4) and the three switch settings, the token chain is followed to the end: every token must resume, every non-final answer covers exactly the requested number of link-bearing sources, counts match, and the multiset union equals the unpaginated answer.",
+    "DESIGN.md 6/C10")
+add("C14", "H", "explicit-state BFS over API histories of the real Traph (bounded depth, exhaustive) x the complete read-only API menu on every state",
+    "On every state of a bounded BFS (file and memory back-ends, roots R0-R4, multi-block stems) every call of the read-only menu (~600 calls per state: every public query, all switch settings, present/absent/diverging LRUs, known/unknown webentities, right/wrong/absent prefixes, pagination chains, partially drained iterators) is bracketed by a byte comparison of both stores.",
+    "DESIGN.md 6/C14")
